@@ -11,7 +11,7 @@ from . import simcommon as SC
 from . import simprop
 
 MODULES = ["TickitModel.Props.C06", "TickitModel.Props.C04", "TickitModel.Props.C06Run", "TickitModel.Props.C07", "TickitModel.Props.FlatInt", "TickitModel.Props.C07Loop", 'TickitModel.Props.AnyTransfer', 'TickitModel.Props.AnyTransferC06', 'TickitModel.Props.C06Order']
-THEOREMS = ["firstWakeups_mapTimes", "firstWakeups_scale", "later_not_first", "addWakeup_lookup", "addWakeup_unique", "addWakeup_length", "firstWakeups_spec", "firstWakeups_none", "delWakeups_lookup",
+THEOREMS = ["nestedDue_mapTimes", "firstWakeups_mapTimes", "firstWakeups_scale", "later_not_first", "addWakeup_lookup", "addWakeup_unique", "addWakeup_length", "firstWakeups_spec", "firstWakeups_none", "delWakeups_lookup",
             "delWakeups_unique", "served_then_later", "nestedDue_spec", "nestedDue_exact", "system_callback_is_min",
             "tick_time_provenance", "wake_not_before",
             "callback_exact", "callback_never_overtaken", "callback_first_update", "callback_served_one_tick", "time_strictly_increases",
